@@ -312,4 +312,214 @@ theorem activate_inv {c c' : Ctx} {vid : Vid} (h : c.activate vid = .ok c') :
   · rename_i v hv; simp at h; subst h; exact hv
   · simp at h
 
+/-! ### folds without nested outputs leave `foldedValues` empty -/
+
+def Clear (l : List Ctx) : Prop := ∀ c ∈ l, c.foldedValues = []
+
+theorem normSlot_nil (p : Eid × Option Nat) : normSlot [] p = p := by
+  simp [normSlot]
+
+theorem norm_nil_true_of_clear {c : Ctx} (h : c.foldedValues = []) : c.norm [] true = c := by
+  obtain ⟨a, vs, vals, su, fc, fv, it⟩ := c
+  simp only at h; subst h
+  have : List.map (normSlot []) fc = fc := by
+    rw [show (normSlot [] : Eid × Option Nat → Eid × Option Nat) = id from funext normSlot_nil]; simp
+  simp [Ctx.norm, this]
+
+theorem map_norm_of_clear {l : List Ctx} (h : Clear l) : l.map (Ctx.norm [] true) = l := by
+  induction l with
+  | nil => rfl
+  | cons a as ih =>
+    simp only [List.map_cons, norm_nil_true_of_clear (h a (by simp)),
+      ih fun c hc => h c (by simp [hc])]
+
+theorem filterReads_nil (f : IRFilter) : filterReads [] f = false := by
+  unfold filterReads
+  split
+  · rename_i r _; cases r <;> simp [refReads]
+  · rfl
+
+theorem refReads_nil (r : FieldRef) : refReads [] r = false := by
+  cases r <;> simp [refReads]
+
+theorem Comm.clear {S : List Ctx → R (List Ctx)} (hS : Comm [] true S) {l out : List Ctx}
+    (hl : Clear l) (h : S l = .ok out) : Clear out := by
+  have h1 := hS l
+  rw [map_norm_of_clear hl, h] at h1
+  simp only [R.map_ok, R.ok.injEq] at h1
+  intro c hc
+  rw [h1] at hc
+  obtain ⟨c0, _, rfl⟩ := List.mem_map.mp hc
+  rfl
+
+theorem clear_of_comm {f : Ctx → R Ctx}
+    (hf : ∀ x, f (x.norm [] true) = (f x).map (Ctx.norm [] true)) {c c' : Ctx}
+    (hc : c.foldedValues = []) (h : f c = .ok c') : c'.foldedValues = [] := by
+  have h1 := hf c
+  rw [norm_nil_true_of_clear hc, h] at h1
+  simp only [R.map_ok, R.ok.injEq] at h1
+  rw [h1]; rfl
+
+theorem applyPostFilters_some {env : Env} {parent : Component} {fold : Fold} {fs : List IRFilter}
+    {c c' : Ctx} (h : applyPostFilters env parent fold fs c = .ok (some c')) : c' = c := by
+  induction fs generalizing c with
+  | nil => simp [applyPostFilters] at h; exact h.symm
+  | cons f fs ih =>
+    simp only [applyPostFilters, R.bind_eq_bind] at h
+    obtain ⟨o, ho, h2⟩ := R.bind_eq_ok h
+    cases o with
+    | none => simp at h2
+    | some c1 =>
+      have := applyPostFilter_some ho
+      subst this
+      exact ih h2
+
+theorem nestedKeysFolds_mem {fs : List Fold} (h : nestedKeysFolds fs = []) :
+    ∀ g ∈ fs, g.fouts = [] ∧ g.component.outputs = [] ∧ nestedKeys g.component = [] := by
+  induction fs with
+  | nil => simp
+  | cons f fs ih =>
+    cases f with
+    | mk a b c d e comp i o p =>
+      simp only [nestedKeysFolds, List.append_eq_nil_iff, List.map_eq_nil_iff] at h
+      intro g hg
+      rcases List.mem_cons.mp hg with rfl | hg
+      · exact ⟨h.1.1.1, h.1.1.2, h.1.2⟩
+      · exact ih h.2 g hg
+
+theorem nestedKeys_folds {comp : Component} (h : nestedKeys comp = []) :
+    ∀ g ∈ comp.folds, g.fouts = [] ∧ g.component.outputs = [] ∧ nestedKeys g.component = [] := by
+  cases comp with
+  | mk r vs es folds outs =>
+    simp only [nestedKeys] at h
+    exact nestedKeysFolds_mem h
+
+theorem keptElems_sub {a : Option VertexId} {computed : List Ctx} {lim : Option Nat × Option Nat}
+    {es : List Ctx} (h : keptElems a computed lim = some (some es)) : ∀ x ∈ es, x ∈ computed := by
+  unfold keptElems at h
+  split at h
+  · unfold collectFoldElements at h
+    split at h
+    · split at h
+      · simp at h
+      · simp at h; subst h; exact fun x hx => hx
+    · split at h
+      · simp at h; subst h; exact fun x hx => List.mem_of_mem_take hx
+      · simp at h; subst h; exact fun x hx => hx
+  · simp at h
+
+theorem removeTags_foldedValues {rs : List FieldRef} {c c' : Ctx} (h : removeTags rs c = .ok c') :
+    c'.foldedValues = c.foldedValues := by
+  induction rs generalizing c with
+  | nil => simp [removeTags] at h; subst h; rfl
+  | cons r rs ih =>
+    simp only [removeTags] at h
+    obtain ⟨c1, h1, h2⟩ := R.bind_eq_ok h
+    have : c1.foldedValues = c.foldedValues := by
+      unfold Ctx.removeTag at h1
+      split at h1
+      · simp at h1; subst h1; rfl
+      · simp at h1
+    exact (ih h2).trans this
+
+/-- one context through a fold without outputs, count outputs and nested outputs -/
+theorem foldFinish_clear {e : Env} {parent : Component} {g : Fold} {lim : Option Nat × Option Nat}
+    {c : Ctx} {computed : List Ctx} {c4 : Ctx}
+    (hf : g.fouts = []) (ho : g.component.outputs = []) (hn : nestedKeys g.component = [])
+    (hc : c.foldedValues = []) (hcomp : Clear computed)
+    (h : foldFinish e parent g lim c computed = .ok (some c4)) : c4.foldedValues = [] := by
+  rw [foldFinish_eq] at h
+  split at h
+  · simp at h
+  · rename_i fromV _
+    split at h
+    · simp at h
+    · rename_i elems hk
+      obtain ⟨_, c2, hc2, _, _, o, hpost, hr⟩ := finishTail_ok h
+      cases o with
+      | none => simp at hr
+      | some c3 =>
+        obtain ⟨news, c4', hnews, h4, hr⟩ := hr
+        simp only [Option.some.injEq] at hr; subst hr
+        have h3 : c3 = c2 := applyPostFilters_some hpost
+        subst h3
+        have hnil : foldOutputs e g elems = .ok [] := by
+          apply foldOutputs_nil e g elems hf ho hn
+          intro es hes x hx
+          subst hes
+          exact hcomp x (keptElems_sub hk x hx)
+        rw [hnil] at hnews
+        simp only [R.ok.injEq] at hnews; subst hnews
+        simp only [mergeFolded, List.any_nil, Bool.false_eq_true, if_false, R.ok.injEq] at h4
+        subst h4
+        simp only [List.append_nil]
+        rw [removeTags_foldedValues hc2]; exact hc
+
+theorem clear_foldStart (c : Ctx) (ns : List VertexId) : Clear (foldStart c ns) := by
+  intro x hx
+  simp only [foldStart, List.mem_map] at hx
+  obtain ⟨n, _, rfl⟩ := hx
+  rfl
+
+theorem clear_component (e : Env) : ∀ (fuel : Nat) (comp : Component), nestedKeys comp = [] →
+    ∀ (ctxs out : List Ctx), Clear ctxs → computeComponent e fuel comp ctxs = .ok out → Clear out := by
+  intro fuel
+  induction fuel with
+  | zero => intro comp _ ctxs out _ h; simp [computeComponent] at h
+  | succ fuel ih =>
+    intro comp hn ctxs out hctx h
+    rw [computeComponent] at h
+    split at h
+    · simp at h
+    · rename_i rootV hroot
+      obtain ⟨ctxs1, h1, h⟩ := R.bind_eq_ok h
+      obtain ⟨stages, hst, h⟩ := R.bind_eq_ok h
+      have hc1 : Clear ctxs1 :=
+        (enterVertex_norm [] true e comp rootV fun f _ => filterReads_nil f).clear hctx h1
+      have hfolds := mergeStages_folds hst
+      -- the stages
+      have stages_clear : ∀ (stages : List Stage), (∀ g, Stage.fold g ∈ stages → g ∈ comp.folds) →
+          ∀ (visited : List Vid) (ctxs out : List Ctx), Clear ctxs →
+          runStages e fuel comp stages visited ctxs = .ok out → Clear out := by
+        intro stages
+        induction stages with
+        | nil => intro _ visited ctxs out hc h; simp [runStages] at h; subst h; exact hc
+        | cons st rest ihs =>
+          intro hmem visited ctxs out hc h
+          cases st with
+          | edge ed =>
+            rw [runStages] at h
+            obtain ⟨v', _, h⟩ := R.bind_eq_ok h
+            obtain ⟨ctxs', he, h⟩ := R.bind_eq_ok h
+            have hc' : Clear ctxs' :=
+              (expandEdge_norm [] true e comp ed fun v _ f _ => filterReads_nil f).clear hc he
+            exact ihs (fun g hg => hmem g (by simp [hg])) v' ctxs' out hc' h
+          | fold g =>
+            rw [runStages] at h
+            obtain ⟨v', _, h⟩ := R.bind_eq_ok h
+            obtain ⟨ctxs', hf, h⟩ := R.bind_eq_ok h
+            refine ihs (fun g' hg' => hmem g' (by simp [hg'])) v' ctxs' out ?_ h
+            have hg : g ∈ comp.folds := hmem g (by simp)
+            obtain ⟨hfo, hou, hnk⟩ := nestedKeys_folds hn g hg
+            rw [computeFold] at hf
+            split at hf
+            · simp at hf
+            · rename_i fromV _
+              obtain ⟨l1, hl1, hf⟩ := R.bind_eq_ok hf
+              obtain ⟨l2, hl2, hf⟩ := R.bind_eq_ok hf
+              obtain ⟨lim, _, hf⟩ := R.bind_eq_ok hf
+              have hcl1 : Clear l1 :=
+                (Comm.mapR (T := []) (clr := true) fun c =>
+                  importTags_norm [] true e comp g.imports c fun r _ => refReads_nil r).clear hc hl1
+              have hcl2 : Clear l2 :=
+                (Comm.mapR (T := []) (clr := true) fun c => activate_norm [] true c g.fromVid).clear hcl1 hl2
+              intro c4 hc4
+              obtain ⟨c, hcmem, hone⟩ := filterMapR_mem hf c4 hc4
+              rw [foldOne] at hone
+              obtain ⟨ns, _, hone⟩ := R.bind_eq_ok hone
+              obtain ⟨computed, hcomp, hone⟩ := R.bind_eq_ok hone
+              have hcc : Clear computed := ih g.component hnk _ _ (clear_foldStart c ns) hcomp
+              exact foldFinish_clear hfo hou hnk (hcl2 c hcmem) hcc hone
+      exact stages_clear stages hfolds _ ctxs1 out hc1 h
+
 end TF.Engine
